@@ -232,6 +232,26 @@ def bounded_maps_arrays(tier, seed):
         check(f'map:get(map:merge((map:entry(xs:time("12:00:00"), 2), map:entry(xs:date("2000-01-01"), 1), {m1})), {k1})',
               'v1' if FAMILY[k1][0] not in ('date', 'time') else (1 if FAMILY[k1][0] == 'date' else 2),
               ('mixed', FAMILY[k1][0]) if FAMILY[k1][0] != 'dateTime' else ('pair', 'date', 'dateTime', False))
+    # map:put replaces the entry, key included (F&O 17.3.9: "the new key and value"): the type of the key afterwards is the type of the key that was put
+    for m0, k2, tname in (('map{1: "a"}', '1.0e0', 'xs:double'), ('map{1.0e0: "a"}', '1', 'xs:integer'), ('map:entry("u", "x")', 'xs:anyURI("u")', 'xs:anyURI'),
+                          ('map{xs:anyURI("u"): "x"}', '"u"', 'xs:string'), ('map{2.0: "a"}', 'xs:float(2)', 'xs:float'), ('map{1: "a", 2: "b"}', '2.0', 'xs:decimal')):
+        check(f'map:keys(map:put({m0}, {k2}, "z"))[. = {k2}] instance of {tname}', True, ('put-key-type', tname))
+        check(f'map:size(map:put({m0}, {k2}, "z"))', 2 if '2: "b"' in m0 else 1, ('put-key-type', tname))
+        check(f'map:get(map:put({m0}, {k2}, "z"), {k2})', 'z', ('put-key-type', tname))
+        check(f'let $m := {m0} return (map:put($m, {k2}, "z"), map:keys($m)[. = {k2}] instance of {tname})[2]', tname == 'xs:decimal', ('put-key-type', tname))  # the operand keeps its own key (an xs:integer is an xs:decimal)
+    # keys given by nodes are atomized in every call form (lookup with a parenthesized key specifier, dynamic call, map:get, map:contains)
+    import xml.etree.ElementTree as _ET
+    kdoc = _ET.XML('<r k="a" n="2"><k>a</k><k>b</k></r>')
+    for expr, want in (("map{'a': 1}?(/r/@k)", [1]), ("(map{'a': 1}, map{'a': 2, 'b': 3})?(/r/k)", [1, 2, 3]), ("map:get(map{'a': 1}, /r/@k)", [1]), ("map:contains(map{'a': 1}, /r/k[1])", True),
+                       ("/r/k ! map{'a': 1, 'b': 2}?(.)", [1, 2]), ("map{'a': 1}[?(/r/@k) = 1] ! map:size(.)", [1]), ("map:put(map{}, /r/@k, 1)?a", [1]),
+                       ("map:keys(map:put(map{}, /r/@k, 1)) instance of xs:untypedAtomic", True)):
+        n += 1
+        seen.add(('node keys', expr[:20]))
+        got = run_native(lambda: ep_select(kdoc, expr, parser=P))
+        g = got[1] if got[0] == 'return' else got
+        g = g if isinstance(g, list) or got[0] != 'return' else [g]
+        if g != (want if isinstance(want, list) else [want]):
+            fails.append({'key': f'node keys: {expr}', 'what': f'`{expr}` on <r k="a" n="2"><k>a</k><k>b</k></r> = {got!r}; a key given by a node is atomized: {want!r}', 'expr': expr, 'want': repr(want)})
     # arrays against the list model
     for items in ([], [1], [1, 2], [1, 2, 3], ['a', 'b', 'c', 'd']):
         lit = '[' + ', '.join(repr(x).replace("'", '"') for x in items) + ']'
